@@ -397,6 +397,11 @@ func (x *RX) sample(r *mon.RNG, groups []string, sb *strings.Builder, fold bool)
 	switch x.Op {
 	case "lit":
 		for _, c := range x.Lit {
+			if fold && c >= 0x40 && c < 0x7f && !unicode.IsLetter(c) && r.Chance(1, 4) {
+				// not a fold partner: the ASCII character 0x20 away ('[' / '{', '^' / '~', '_' / DEL ...)
+				sb.WriteRune(c ^ 0x20)
+				continue
+			}
 			if fold && r.Bool() {
 				if unicode.IsUpper(c) {
 					c = unicode.ToLower(c)
